@@ -529,6 +529,7 @@ def run_shard(ctx):
     n = N[ctx.tier]
     space = packages.PackageSpace(os.path.join(ctx.tmp, "pkgs"),
                                   "c11s%d" % ctx.shard)
+    space.split_every = 3
     d = os.path.join(ctx.tmp, "sext")
     try:
         for i in range(n):
@@ -539,12 +540,15 @@ def run_shard(ctx):
             run_schema_extends(ctx, i, d)
             run_components(ctx, i, space)
     finally:
+        ctx.res.hook("packages_with_two_path_entries",
+                     getattr(space, "split_packages", 0))
         space.close()
 
 
 def replay(ctx, case):
     fam = case["family"]
     space = packages.PackageSpace(os.path.join(ctx.tmp, "pkgs"), "c11r")
+    space.split_every = 1       # harmless for correct code
     try:
         if fam == "schema_extends":
             d = os.path.join(ctx.tmp, "sextr")
